@@ -63,8 +63,10 @@ class Ctx:
             self._cg = CallGraph(self.repo, self.resolver)
         return self._cg
 
-    def builder(self, inline=None, max_depth=3):
+    def builder(self, inline=None, max_depth=None):
         from .ir import Builder
+        if max_depth is None:
+            max_depth = 3 if self.tier == "quick" else 6
         b = Builder(self.repo, inline=inline, max_depth=max_depth)
         b.resolver = self.resolver
         return b
@@ -140,6 +142,20 @@ def main(argv=None):
         err = f"internal error: {type(e).__name__}: {e}\n" + traceback.format_exc()
         status = 2
 
+    audit = None
+    if a.tier == "thorough" and status != 2 and not a.replay and not a.repo:
+        # sensitivity audit of the checker itself on seeded variants of the CURRENT tree; never changes the verdict
+        try:
+            audit = run_audit(prop, seed)
+            for m in audit["missed"]:
+                print(f"AUDIT-WARNING property={prop} seeded change not flagged: {m}")
+            for m in audit["false_alarms"]:
+                print(f"AUDIT-WARNING property={prop} behaviour-preserving variant flagged: {m}")
+        except Exception as e:  # the audit must never break a check
+            audit = {"error": f"{type(e).__name__}: {e}"}
+        if ctx is not None:
+            ctx.extra["mutant_audit"] = audit
+
     known = [k for k in load_known() if k.get("property") == prop]
     open_known = [k for k in known if k.get("status") == "open"]
     violations, known_hits = [], []
@@ -194,6 +210,39 @@ def main(argv=None):
     if not a.no_evidence and not a.replay:
         write_evidence(prop, a.tier, seed, ctx, status, err, violations, known_hits, wall)
     return status
+
+
+def run_audit(prop, seed):
+    """Runs the seeded-variant corpus of this property (sa/mutants.py) against the check in scratch copies under $TMPDIR."""
+    import concurrent.futures as cf
+    import random
+    from . import selftest
+    MUT, BEN = selftest.load_corpus()
+    jobs = [("mutant", m, [prop]) for m in MUT if m["prop"] == prop] + [("benign", m, [prop]) for m in BEN if prop in m["props"]]
+    budget = int(os.environ.get("VERIF_AUDIT_MAX", "80"))
+    if len(jobs) > budget:
+        random.Random(seed).shuffle(jobs)
+        jobs = jobs[:budget]
+    out = []
+    with cf.ThreadPoolExecutor(max_workers=16) as ex:
+        for r in ex.map(lambda j: selftest.run_one(*j), jobs):
+            out.append(r)
+    res = {"variants": len(out), "flagged": 0, "benign_silent": 0, "missed": [], "false_alarms": [], "stale": [], "analysis_errors": []}
+    for r in out:
+        v, d = selftest.judge(r)
+        if v in ("CAUGHT", "CAUGHT-OTHER"):
+            res["flagged"] += 1
+        elif v == "SILENT":
+            res["benign_silent"] += 1
+        elif v == "MISSED":
+            res["missed"].append(r["id"])
+        elif v == "FALSE-ALARM":
+            res["false_alarms"].append(r["id"])
+        elif v == "STALE":
+            res["stale"].append(r["id"])
+        else:
+            res["analysis_errors"].append(r["id"])
+    return res
 
 
 def write_evidence(prop, tier, seed, ctx, status, err, violations, known_hits, wall):
